@@ -176,7 +176,8 @@ class AbstractReaderRead(Contract):
     def raises(self, c):
         import importlib
         errs = c.ex.env.repo.live("gunicorn.http.errors")
-        return [(errs.NoMoreData, None), (errs.ChunkMissingTerminator, None), (errs.InvalidChunkSize, None),
+        return [(errs.NoMoreData, None), (errs.ChunkMissingTerminator, None), (errs.InvalidChunkSize, None), (errs.LimitRequestLine, None),
+                (errs.LimitRequestHeaders, None), (errs.InvalidHeader, None), (errs.InvalidHeaderName, None),
                 (OSError, None, lambda c2: {"errno": SInt(fresh_int("errno"))})]
 
     def exc_post(self, c):
@@ -289,7 +290,8 @@ class _BodyCases:
 
     def raises(self, c):
         errs = c.ex.env.repo.live("gunicorn.http.errors")
-        return [(errs.NoMoreData, None), (errs.ChunkMissingTerminator, None), (errs.InvalidChunkSize, None),
+        return [(errs.NoMoreData, None), (errs.ChunkMissingTerminator, None), (errs.InvalidChunkSize, None), (errs.LimitRequestLine, None),
+                (errs.LimitRequestHeaders, None), (errs.InvalidHeader, None), (errs.InvalidHeaderName, None),
                 (OSError, None, lambda c2: {"errno": SInt(fresh_int("errno"))})]
 
 
